@@ -154,7 +154,7 @@ class ModuleGen(object):
         have_init = False
         for j in range(rng.randint(0, 5)):
             mk = rng.choice(['m', 'static', 'cls', 'prop', 'amethod', 'nestedcls', 'setter', 'deleter', 'wrapped', 'init',
-                             'ctxmethod', 'setter_stacked', 'getter_again', 'rewrapped'])
+                             'ctxmethod', 'setter_stacked', 'getter_again', 'rewrapped', 'private'])
             if mk == 'init':
                 if have_init:
                     mk = 'm'
@@ -176,6 +176,10 @@ class ModuleGen(object):
                                                             '_deco(rw%d) if attr else rw%d', 'staticmethod(rw%d)',
                                                             '_deco(f=rw%d)']).replace('%d', str(j))))
                 out.append('')
+            elif mk == 'private':
+                # a class-private name (two leading underscores): the class namespace holds it under a mangled key, the
+                # doctest is named as the source spells it
+                self.func('    ', '__pv%d' % j, '%s.__pv%d' % (cn, j), True, nested=False)
             elif mk == 'amethod':
                 self.func('    ', 'am%d' % j, '%s.am%d' % (cn, j), True, is_async=True)
             elif mk == 'static':
